@@ -1,7 +1,9 @@
-(** * C19 proofs, part 2: Segment3D on the real instance -- the current code (with finding F5 refuted
-    and characterised) and the repaired code of Model/SegmentFixed.v. *)
+(** * C19 proofs, part 2: Segment3D on the real instance.
+    The live code (after fix ec384e6: coplanarity = distance between the supporting lines <= 1e-5) is Model/Segment.v;
+    the code before the fix is Model/PinnedSegment.v ([_pinned]), about which the F5 refutations and the
+    characterisation of the old behaviour are kept.  [seg_solve] (projection + Cramer) is shared by both. *)
 From Coq Require Import ZArith Reals Lra Bool List Psatz.
-From G3 Require Import Model.Num Model.Base Model.Vec Model.Segment Model.SegmentFixed Theory.RInst Proofs.C19_vec.
+From G3 Require Import Model.Num Model.Base Model.Vec Model.Segment Model.PinnedSegment Theory.RInst Proofs.C19_vec.
 Local Open Scope R_scope.
 
 Notation S := (Seg R).
@@ -62,21 +64,21 @@ Proof.
   cbn [fst]. split; [intros (t & E); discriminate | intros [?|[?|?]]; lra].
 Qed.
 
-(** the current code, unfolded onto [seg_solve] *)
-Lemma gip_unfold (s r : S) :
-  seg_get_intersection_pt s r =
+(** the pinned code, unfolded onto [seg_solve] *)
+Lemma gipP_unfold (s r : S) :
+  seg_get_intersection_pt_pinned s r =
   if vis_same_direction (seg_as_vec s) (seg_as_vec r) then None else
   if vis_zero (vcross (seg_delta s r) (seg_normal s r)) then None else
   fst (seg_solve (seg_as_vec s) (seg_as_vec r) (seg_delta s r) (seg_normal s r)).
 Proof.
-  unfold seg_get_intersection_pt, seg_get_intersection_pt_tag, seg_as_vec, seg_delta, seg_normal, seg_as_vec.
+  unfold seg_get_intersection_pt_pinned, seg_get_intersection_pt_tag_pinned, seg_as_vec, seg_delta, seg_normal, seg_as_vec.
   destruct (vis_same_direction _ _); [reflexivity|]. destruct (vis_zero _); reflexivity.
 Qed.
 
 (** ** what [get_intersection_pt] guarantees: the projected system is solved ... *)
-Lemma gip_solved (s r : S) (ta tb : R) : seg_get_intersection_pt s r = Some (ta, tb) -> solved s r ta tb.
+Lemma gipP_solved (s r : S) (ta tb : R) : seg_get_intersection_pt_pinned s r = Some (ta, tb) -> solved s r ta tb.
 Proof.
-  rewrite gip_unfold. destruct (vis_same_direction _ _); [discriminate|]. destruct (vis_zero _); [discriminate|].
+  rewrite gipP_unfold. destruct (vis_same_direction _ _); [discriminate|]. destruct (vis_zero _); [discriminate|].
   apply seg_solve_solved.
 Qed.
 (** ... and the two reported points are one 3-D point exactly when the four end points are coplanar *)
@@ -93,21 +95,21 @@ Proof.
     + intros E. rewrite E in Ey. rewrite <- Ey. ring.
     + intros E. rewrite E in Ey. apply v3_eq; try assumption. apply Rmult_integral in Ey. destruct Ey; lra.
 Qed.
-Lemma gip_coplanar_3d (s r : S) (ta tb : R) :
-  seg_get_intersection_pt s r = Some (ta, tb) -> coplanar s r -> seg_at s ta = seg_at r tb.
-Proof. intros H C. apply (solved_coincide_iff s r ta tb (gip_solved s r ta tb H)), C. Qed.
-Lemma gip_skew_points_differ (s r : S) (ta tb : R) :
-  seg_get_intersection_pt s r = Some (ta, tb) -> ~ coplanar s r -> seg_at s ta <> seg_at r tb.
-Proof. intros H C E. apply C, (solved_coincide_iff s r ta tb (gip_solved s r ta tb H)), E. Qed.
+Lemma gipP_coplanar_3d (s r : S) (ta tb : R) :
+  seg_get_intersection_pt_pinned s r = Some (ta, tb) -> coplanar s r -> seg_at s ta = seg_at r tb.
+Proof. intros H C. apply (solved_coincide_iff s r ta tb (gipP_solved s r ta tb H)), C. Qed.
+Lemma gipP_skew_points_differ (s r : S) (ta tb : R) :
+  seg_get_intersection_pt_pinned s r = Some (ta, tb) -> ~ coplanar s r -> seg_at s ta <> seg_at r tb.
+Proof. intros H C E. apply C, (solved_coincide_iff s r ta tb (gipP_solved s r ta tb H)), E. Qed.
 
 (** when is a pair of parameters returned at all: the scalar triple product does not enter *)
-Lemma gip_some_iff (s r : S) :
-  (exists t, seg_get_intersection_pt s r = Some t) <->
+Lemma gipP_some_iff (s r : S) :
+  (exists t, seg_get_intersection_pt_pinned s r = Some t) <->
   vis_same_direction (seg_as_vec s) (seg_as_vec r) = false /\
   ~ tiny (vcross (seg_delta s r) (seg_normal s r)) /\
   (e5 < Rabs (vz (seg_normal s r)) \/ e5 < Rabs (vx (seg_normal s r)) \/ e5 < Rabs (vy (seg_normal s r))).
 Proof.
-  rewrite gip_unfold. destruct (vis_same_direction _ _).
+  rewrite gipP_unfold. destruct (vis_same_direction _ _).
   - split; [intros (t & E); discriminate | intros (E & _); discriminate].
   - destruct (vis_zero _) eqn:Ez.
     + apply vis_zero_spec in Ez. split; [intros (t & E); discriminate | tauto].
@@ -126,11 +128,11 @@ Proof. unfold crossing_window. rewrite c1em8_R. rnum. rewrite !andb_true_iff, in
 Lemma touching_window_b (ta tb : R) : in01 ta && in01 tb = true <-> touching_window ta tb.
 Proof. unfold touching_window. rewrite andb_true_iff, !in01_spec. reflexivity. Qed.
 
-Lemma seg_intersect_spec (s r : S) (p : V) :
-  seg_intersect s r = Some p <->
-  exists ta tb, seg_get_intersection_pt s r = Some (ta, tb) /\ crossing_window ta tb /\ p = seg_at s ta.
+Lemma seg_intersect_pinned_spec (s r : S) (p : V) :
+  seg_intersect_pinned s r = Some p <->
+  exists ta tb, seg_get_intersection_pt_pinned s r = Some (ta, tb) /\ crossing_window ta tb /\ p = seg_at s ta.
 Proof.
-  unfold seg_intersect. destruct (seg_get_intersection_pt s r) as [[ta tb]|].
+  unfold seg_intersect_pinned. destruct (seg_get_intersection_pt_pinned s r) as [[ta tb]|].
   - destruct (in01x ta && _) eqn:E.
     + apply crossing_window_b in E. split.
       * intros H. inversion H. exists ta, tb. auto.
@@ -138,11 +140,11 @@ Proof.
     + split; [discriminate|]. intros (ta' & tb' & H & W & _). inversion H; subst. apply crossing_window_b in W. congruence.
   - split; [discriminate | intros (? & ? & ? & _); discriminate].
 Qed.
-Lemma seg_touches_spec (s r : S) (p : V) :
-  seg_touches s r = Some p <->
-  exists ta tb, seg_get_intersection_pt s r = Some (ta, tb) /\ touching_window ta tb /\ p = seg_at s ta.
+Lemma seg_touches_pinned_spec (s r : S) (p : V) :
+  seg_touches_pinned s r = Some p <->
+  exists ta tb, seg_get_intersection_pt_pinned s r = Some (ta, tb) /\ touching_window ta tb /\ p = seg_at s ta.
 Proof.
-  unfold seg_touches. destruct (seg_get_intersection_pt s r) as [[ta tb]|].
+  unfold seg_touches_pinned. destruct (seg_get_intersection_pt_pinned s r) as [[ta tb]|].
   - destruct (in01 ta && in01 tb) eqn:E.
     + apply touching_window_b in E. split.
       * intros H. inversion H. exists ta, tb. auto.
@@ -152,27 +154,27 @@ Proof.
 Qed.
 Lemma crossing_in_touching (ta tb : R) : crossing_window ta tb -> touching_window ta tb.
 Proof. unfold crossing_window, touching_window, e8. lra. Qed.
-Lemma seg_intersect_touches (s r : S) (p : V) : seg_intersect s r = Some p -> seg_touches s r = Some p.
+Lemma seg_intersect_touches_pinned (s r : S) (p : V) : seg_intersect_pinned s r = Some p -> seg_touches_pinned s r = Some p.
 Proof.
-  rewrite seg_intersect_spec, seg_touches_spec. intros (ta & tb & H & W & E). exists ta, tb. auto using crossing_in_touching.
+  rewrite seg_intersect_pinned_spec, seg_touches_pinned_spec. intros (ta & tb & H & W & E). exists ta, tb. auto using crossing_in_touching.
 Qed.
 (** contact at an end point of the second segment (tb = 0 or 1) is never a crossing and always a touch *)
-Lemma seg_endpoint_contact (s r : S) (ta tb : R) :
-  seg_get_intersection_pt s r = Some (ta, tb) -> tb = 0 \/ tb = 1 ->
-  seg_intersect s r = None /\ (0 <= ta <= 1 -> seg_touches s r = Some (seg_at s ta)).
+Lemma seg_endpoint_contact_pinned (s r : S) (ta tb : R) :
+  seg_get_intersection_pt_pinned s r = Some (ta, tb) -> tb = 0 \/ tb = 1 ->
+  seg_intersect_pinned s r = None /\ (0 <= ta <= 1 -> seg_touches_pinned s r = Some (seg_at s ta)).
 Proof.
   intros H Hb. split.
-  - destruct (seg_intersect s r) as [p|] eqn:E; [|reflexivity]. apply seg_intersect_spec in E.
+  - destruct (seg_intersect_pinned s r) as [p|] eqn:E; [|reflexivity]. apply seg_intersect_pinned_spec in E.
     destruct E as (ta' & tb' & H' & W & _). rewrite H in H'. inversion H'; subst. unfold crossing_window, e8 in W. lra.
-  - intros Ha. apply seg_touches_spec. exists ta, tb. unfold touching_window. repeat split; try tauto; destruct Hb; lra.
+  - intros Ha. apply seg_touches_pinned_spec. exists ta, tb. unfold touching_window. repeat split; try tauto; destruct Hb; lra.
 Qed.
 (** a crossing reported for coplanar segments is a common point of the two segments *)
-Lemma seg_intersect_coplanar_sound (s r : S) (p : V) :
-  coplanar s r -> seg_touches s r = Some p ->
+Lemma seg_touch_coplanar_sound_pinned (s r : S) (p : V) :
+  coplanar s r -> seg_touches_pinned s r = Some p ->
   exists ta tb, 0 <= ta <= 1 /\ 0 <= tb <= 1 /\ p = seg_at s ta /\ p = seg_at r tb.
 Proof.
-  intros C H. apply seg_touches_spec in H. destruct H as (ta & tb & H & (Wa & Wb) & ->).
-  exists ta, tb. repeat split; try tauto. apply gip_coplanar_3d; assumption.
+  intros C H. apply seg_touches_pinned_spec in H. destruct H as (ta & tb & H & (Wa & Wb) & ->).
+  exists ta, tb. repeat split; try tauto. apply gipP_coplanar_3d; assumption.
 Qed.
 
 (** ** finding F5, first half: skew segments are reported as crossing.
@@ -181,9 +183,9 @@ Definition f5_s : S := seg_new (mkV3 0 0 0) (mkV3 1 0 0).
 Definition f5_r : S := seg_new (mkV3 (1/2) (-1) 1) (mkV3 (1/2) 1 1).
 Lemma Rabs_lt_tiny_false (x : R) : 1 <= x \/ x <= -1 -> ~ Rabs x < tinyR.
 Proof. intros H A. pose proof tinyR_small. unfold Rabs in A. destruct (Rcase_abs x); lra. Qed.
-Lemma f5_gip : seg_get_intersection_pt f5_s f5_r = Some (1/2, 1/2).
+Lemma f5_gip_pinned : seg_get_intersection_pt_pinned f5_s f5_r = Some (1/2, 1/2).
 Proof.
-  rewrite gip_unfold.
+  rewrite gipP_unfold.
   replace (vis_same_direction (seg_as_vec f5_s) (seg_as_vec f5_r)) with false.
   2:{ symmetry. destruct (vis_same_direction _ _) eqn:E; [|reflexivity]. apply vis_same_direction_spec in E.
       destruct E as (_ & _ & E & _). exfalso. revert E. unfold f5_s, f5_r, seg_as_vec, seg_new, e5. cbn [sstart send]. vunf. nra. }
@@ -197,18 +199,18 @@ Proof.
   cbn [fst]. unfold f5_s, f5_r, seg_delta, seg_as_vec, seg_new. cbn [sstart send]. vunf. f_equal. f_equal; field.
 Qed.
 Lemma f5_refuted :
-  seg_get_intersection_pt f5_s f5_r = Some (1/2, 1/2) /\
-  seg_intersect f5_s f5_r = Some (mkV3 (1/2) 0 0) /\ seg_touches f5_s f5_r = Some (mkV3 (1/2) 0 0) /\
+  seg_get_intersection_pt_pinned f5_s f5_r = Some (1/2, 1/2) /\
+  seg_intersect_pinned f5_s f5_r = Some (mkV3 (1/2) 0 0) /\ seg_touches_pinned f5_s f5_r = Some (mkV3 (1/2) 0 0) /\
   seg_at f5_s (1/2) = mkV3 (1/2) 0 0 /\ seg_at f5_r (1/2) = mkV3 (1/2) 0 1 /\
   ~ coplanar f5_s f5_r /\
   (forall ta tb, vlen2 (vsub (seg_at f5_s ta) (seg_at f5_r tb)) >= 1).
 Proof.
-  pose proof f5_gip as G.
+  pose proof f5_gip_pinned as G.
   assert (P : seg_at f5_s (1/2) = mkV3 (1/2) 0 0).
   { unfold seg_at, f5_s, seg_as_vec, seg_new. cbn [sstart send]. vunf. apply v3_eq; cbn [vx vy vz]; nra. }
   split; [exact G|]. split; [|split; [|split; [exact P|split; [|split]]]].
-  - apply seg_intersect_spec. exists (1/2), (1/2). split; [exact G|]. split; [unfold crossing_window, e8; lra | symmetry; exact P].
-  - apply seg_touches_spec. exists (1/2), (1/2). split; [exact G|]. split; [unfold touching_window; lra | symmetry; exact P].
+  - apply seg_intersect_pinned_spec. exists (1/2), (1/2). split; [exact G|]. split; [unfold crossing_window, e8; lra | symmetry; exact P].
+  - apply seg_touches_pinned_spec. exists (1/2), (1/2). split; [exact G|]. split; [unfold touching_window; lra | symmetry; exact P].
   - unfold seg_at, f5_r, seg_as_vec, seg_new. cbn [sstart send]. vunf. apply v3_eq; cbn [vx vy vz]; nra.
   - unfold coplanar, triple, f5_s, f5_r, seg_delta, seg_normal, seg_as_vec, seg_new. cbn [sstart send]. vunf. intros E. nra.
   - intros ta tb. unfold seg_at, f5_s, f5_r, seg_as_vec, seg_new. cbn [sstart send]. vunf.
@@ -217,9 +219,9 @@ Proof.
 Qed.
 
 (** finding F5, second half: two segments that start at the same point never "touch" *)
-Lemma gip_common_start_none (s r : S) : sstart s = sstart r -> seg_get_intersection_pt s r = None.
+Lemma gipP_common_start_none (s r : S) : sstart s = sstart r -> seg_get_intersection_pt_pinned s r = None.
 Proof.
-  intros E. rewrite gip_unfold. destruct (vis_same_direction _ _); [reflexivity|].
+  intros E. rewrite gipP_unfold. destruct (vis_same_direction _ _); [reflexivity|].
   replace (vis_zero _) with true; [reflexivity|]. symmetry. apply vis_zero_spec.
   unfold seg_delta. rewrite E. destruct (sstart r) as [px py pz], (seg_normal s r) as [nx ny nz].
   unfold tiny. vunf. pose proof tinyR_pos.
@@ -228,14 +230,14 @@ Proof.
 Qed.
 Lemma common_start_refuted :
   exists s r : S, sstart s = sstart r /\ coplanar s r /\ vdot (seg_as_vec s) (seg_as_vec r) = 0 /\
-                  seg_at s 0 = seg_at r 0 /\ seg_touches s r = None.
+                  seg_at s 0 = seg_at r 0 /\ seg_touches_pinned s r = None.
 Proof.
   exists (seg_new (mkV3 0 0 0) (mkV3 1 0 0)), (seg_new (mkV3 0 0 0) (mkV3 0 1 0)).
   split; [reflexivity|]. split; [|split; [|split]].
   - unfold coplanar, triple, seg_delta, seg_normal, seg_as_vec, seg_new. cbn [sstart send]. vunf. lra.
   - unfold seg_as_vec, seg_new. cbn [sstart send]. vunf. lra.
   - unfold seg_at, seg_as_vec, seg_new. cbn [sstart send]. vunf. apply v3_eq; cbn [vx vy vz]; lra.
-  - unfold seg_touches. rewrite gip_common_start_none; reflexivity.
+  - unfold seg_touches_pinned. rewrite gipP_common_start_none; reflexivity.
 Qed.
 
 (** completeness: a genuine common point of the two supporting lines is what is reported, whenever
@@ -276,10 +278,10 @@ Proof.
   replace (sy - ry) with ((fy - ry) * tb - (ey - sy) * ta) by lra.
   replace (sz - rz) with ((fz - rz) * tb - (ez - sz) * ta) by lra. ring.
 Qed.
-Lemma gip_complete (s r : S) (ta tb : R) (t : R * R) :
-  seg_at s ta = seg_at r tb -> seg_get_intersection_pt s r = Some t -> t = (ta, tb).
+Lemma gipP_complete (s r : S) (ta tb : R) (t : R * R) :
+  seg_at s ta = seg_at r tb -> seg_get_intersection_pt_pinned s r = Some t -> t = (ta, tb).
 Proof.
-  intros E. rewrite gip_unfold. destruct (vis_same_direction _ _); [discriminate|]. destruct (vis_zero _); [discriminate|].
+  intros E. rewrite gipP_unfold. destruct (vis_same_direction _ _); [discriminate|]. destruct (vis_zero _); [discriminate|].
   apply seg_solve_complete, E.
 Qed.
 Lemma seg_midpoint_spec (s : S) : seg_midpoint s = seg_at s (1 / 2).
@@ -302,24 +304,24 @@ Proof.
   - intros ->. auto.
 Qed.
 (** outside the skew class every reported touch / crossing is a genuine common point of the two segments *)
-Lemma touches_sound_outside_known (s r : S) (p : V) : known_skew s r = false -> seg_touches s r = Some p ->
+Lemma touches_sound_outside_known_pinned (s r : S) (p : V) : known_skew s r = false -> seg_touches_pinned s r = Some p ->
   exists ta tb, 0 <= ta <= 1 /\ 0 <= tb <= 1 /\ p = seg_at s ta /\ p = seg_at r tb.
-Proof. intros K. apply seg_intersect_coplanar_sound, known_skew_false, K. Qed.
+Proof. intros K. apply seg_touch_coplanar_sound_pinned, known_skew_false, K. Qed.
 (** every member of the skew class that gets an answer gets a wrong one; every member of the common-start class gets none *)
-Lemma known_skew_wrong (s r : S) (ta tb : R) : known_skew s r = true -> seg_get_intersection_pt s r = Some (ta, tb) -> seg_at s ta <> seg_at r tb.
+Lemma known_skew_wrong (s r : S) (ta tb : R) : known_skew s r = true -> seg_get_intersection_pt_pinned s r = Some (ta, tb) -> seg_at s ta <> seg_at r tb.
 Proof.
-  intros K H. apply gip_skew_points_differ; [exact H|]. intros C. apply known_skew_false in C. congruence.
+  intros K H. apply gipP_skew_points_differ; [exact H|]. intros C. apply known_skew_false in C. congruence.
 Qed.
-Lemma known_common_start_none (s r : S) : known_common_start s r = true -> seg_get_intersection_pt s r = None.
-Proof. intros K. apply gip_common_start_none, known_common_start_true, K. Qed.
+Lemma known_common_start_none (s r : S) : known_common_start s r = true -> seg_get_intersection_pt_pinned s r = None.
+Proof. intros K. apply gipP_common_start_none, known_common_start_true, K. Qed.
 (** a genuine common point of the supporting lines IS reported with its parameters, outside the common-start band *)
-Lemma gip_reports (s r : S) (ta tb : R) :
+Lemma gipP_reports (s r : S) (ta tb : R) :
   seg_at s ta = seg_at r tb -> vis_same_direction (seg_as_vec s) (seg_as_vec r) = false ->
   ~ tiny (vcross (seg_delta s r) (seg_normal s r)) ->
   (e5 < Rabs (vz (seg_normal s r)) \/ e5 < Rabs (vx (seg_normal s r)) \/ e5 < Rabs (vy (seg_normal s r))) ->
-  seg_get_intersection_pt s r = Some (ta, tb).
+  seg_get_intersection_pt_pinned s r = Some (ta, tb).
 Proof.
-  intros E D T N. destruct (proj2 (gip_some_iff s r) (conj D (conj T N))) as (t & G). rewrite G. f_equal. eapply gip_complete; eassumption.
+  intros E D T N. destruct (proj2 (gipP_some_iff s r) (conj D (conj T N))) as (t & G). rewrite G. f_equal. eapply gipP_complete; eassumption.
 Qed.
 
 (** ** contains_point / contains: the parameter is read along the FIRST axis whose extent exceeds the
@@ -463,32 +465,32 @@ Proof.
   rewrite !A. reflexivity.
 Qed.
 
-(** ** the repaired code (Model/SegmentFixed.v) *)
-Lemma gipF_unfold (s r : S) :
-  seg_get_intersection_pt_fixed s r =
+(** ** the live code (Model/Segment.v, after fix ec384e6) *)
+Lemma gip_unfold (s r : S) :
+  seg_get_intersection_pt s r =
   if vis_same_direction (seg_as_vec s) (seg_as_vec r) then None else
   if Rltb (e5 * vlen (seg_normal s r)) (Rabs (triple s r)) then None else
   fst (seg_solve (seg_as_vec s) (seg_as_vec r) (seg_delta s r) (seg_normal s r)).
 Proof.
-  unfold seg_get_intersection_pt_fixed, seg_get_intersection_pt_fixed_tag, triple, seg_as_vec, seg_delta, seg_normal, seg_as_vec.
+  unfold seg_get_intersection_pt, seg_get_intersection_pt_tag, triple, seg_as_vec, seg_delta, seg_normal, seg_as_vec.
   rewrite c1em5_R. rnum. destruct (vis_same_direction _ _); [reflexivity|]. destruct (Rltb _ _); reflexivity.
 Qed.
 (** the distance between the supporting lines, |delta . n| / |n|, is at most 1e-5 whenever parameters are returned *)
-Lemma gipF_solved (s r : S) (ta tb : R) : seg_get_intersection_pt_fixed s r = Some (ta, tb) ->
+Lemma gip_solved (s r : S) (ta tb : R) : seg_get_intersection_pt s r = Some (ta, tb) ->
   solved s r ta tb /\ Rabs (triple s r) <= e5 * vlen (seg_normal s r).
 Proof.
-  rewrite gipF_unfold. destruct (vis_same_direction _ _); [discriminate|].
+  rewrite gip_unfold. destruct (vis_same_direction _ _); [discriminate|].
   rcase (e5 * vlen (seg_normal s r)) (Rabs (triple s r)) H; [discriminate|]. intros E. split; [apply seg_solve_solved, E | exact H].
 Qed.
 (** skew segments are never reported: lines further apart than 1e-5 give [None] *)
-Lemma gipF_skew_none (s r : S) : e5 * vlen (seg_normal s r) < Rabs (triple s r) -> seg_get_intersection_pt_fixed s r = None.
+Lemma gip_skew_none (s r : S) : e5 * vlen (seg_normal s r) < Rabs (triple s r) -> seg_get_intersection_pt s r = None.
 Proof.
-  intros H. rewrite gipF_unfold. destruct (vis_same_direction _ _); [reflexivity|].
+  intros H. rewrite gip_unfold. destruct (vis_same_direction _ _); [reflexivity|].
   replace (Rltb _ _) with true by (symmetry; apply Rltb_true; exact H). reflexivity.
 Qed.
-Lemma gipF_coplanar_3d (s r : S) (ta tb : R) :
-  seg_get_intersection_pt_fixed s r = Some (ta, tb) -> coplanar s r -> seg_at s ta = seg_at r tb.
-Proof. intros H C. apply (solved_coincide_iff s r ta tb (proj1 (gipF_solved s r ta tb H))), C. Qed.
+Lemma gip_coplanar_3d (s r : S) (ta tb : R) :
+  seg_get_intersection_pt s r = Some (ta, tb) -> coplanar s r -> seg_at s ta = seg_at r tb.
+Proof. intros H C. apply (solved_coincide_iff s r ta tb (proj1 (gip_solved s r ta tb H))), C. Qed.
 (** the residual between the two reported points lies along one axis and is |triple| / |n_k| *)
 Lemma solved_gap (s r : S) (ta tb : R) : solved s r ta tb ->
   exists nk, e5 < Rabs nk /\ (nk = vx (seg_normal s r) \/ nk = vy (seg_normal s r) \/ nk = vz (seg_normal s r)) /\
@@ -499,46 +501,46 @@ Proof.
   - destruct H as (_ & Hn & -> & -> & E). exists (vx (seg_normal s r)). split; [exact Hn|]. split; [auto|]. rewrite <- E. vunf. ring.
   - destruct H as (_ & _ & Hn & -> & -> & E). exists (vy (seg_normal s r)). split; [exact Hn|]. split; [auto|]. rewrite <- E. vunf. ring.
 Qed.
-Lemma gipF_complete (s r : S) (ta tb : R) :
+Lemma gip_reports (s r : S) (ta tb : R) :
   seg_at s ta = seg_at r tb -> vis_same_direction (seg_as_vec s) (seg_as_vec r) = false ->
   (e5 < Rabs (vz (seg_normal s r)) \/ e5 < Rabs (vx (seg_normal s r)) \/ e5 < Rabs (vy (seg_normal s r))) ->
-  seg_get_intersection_pt_fixed s r = Some (ta, tb).
+  seg_get_intersection_pt s r = Some (ta, tb).
 Proof.
-  intros E D N. rewrite gipF_unfold, D. pose proof (common_point_coplanar s r ta tb E) as C. unfold coplanar in C.
+  intros E D N. rewrite gip_unfold, D. pose proof (common_point_coplanar s r ta tb E) as C. unfold coplanar in C.
   replace (Rltb _ _) with false.
   2:{ symmetry. apply Rltb_false. rewrite C, Rabs_R0. apply Rmult_le_pos; [left; apply e5_pos | apply vlen_nonneg]. }
   apply seg_solve_some_iff in N. destruct N as (t & Ht). rewrite Ht. f_equal. eapply seg_solve_complete; eassumption.
 Qed.
 (** segments with a common start point now touch there *)
-Lemma gipF_common_start (s r : S) :
+Lemma gip_common_start (s r : S) :
   sstart s = sstart r -> vis_same_direction (seg_as_vec s) (seg_as_vec r) = false ->
   (e5 < Rabs (vz (seg_normal s r)) \/ e5 < Rabs (vx (seg_normal s r)) \/ e5 < Rabs (vy (seg_normal s r))) ->
-  seg_get_intersection_pt_fixed s r = Some (0, 0) /\ seg_touches_fixed s r = Some (sstart s) /\ seg_intersect_fixed s r = None.
+  seg_get_intersection_pt s r = Some (0, 0) /\ seg_touches s r = Some (sstart s) /\ seg_intersect s r = None.
 Proof.
   intros E D N.
   assert (P : seg_at s 0 = seg_at r 0).
   { unfold seg_at. rewrite E. destruct (sstart r) as [px py pz], (seg_as_vec s) as [ax ay az], (seg_as_vec r) as [bx b_y bz]. vunf.
     apply v3_eq; cbn [vx vy vz]; ring. }
-  pose proof (gipF_complete s r 0 0 P D N) as G. split; [exact G|]. unfold seg_touches_fixed, seg_intersect_fixed. rewrite G.
+  pose proof (gip_reports s r 0 0 P D N) as G. split; [exact G|]. unfold seg_touches, seg_intersect. rewrite G.
   replace (in01 0) with true by (symmetry; apply in01_spec; lra). cbn [andb]. split.
   - f_equal. destruct (sstart s) as [px py pz], (vsub (send s) (sstart s)) as [ax ay az]. vunf. apply v3_eq; cbn [vx vy vz]; ring.
   - rewrite c1em8_R. rnum. replace (Rleb e8 0) with false by (symmetry; apply Rleb_false; unfold e8; lra).
     rewrite andb_false_r. reflexivity.
 Qed.
 (** on coplanar pairs that the current code does not drop, the repair changes nothing *)
-Lemma gipF_agrees (s r : S) : coplanar s r -> ~ tiny (vcross (seg_delta s r) (seg_normal s r)) ->
-  seg_get_intersection_pt_fixed s r = seg_get_intersection_pt s r.
+Lemma gip_agrees_pinned (s r : S) : coplanar s r -> ~ tiny (vcross (seg_delta s r) (seg_normal s r)) ->
+  seg_get_intersection_pt s r = seg_get_intersection_pt_pinned s r.
 Proof.
-  intros C T. rewrite gipF_unfold, gip_unfold. destruct (vis_same_direction _ _); [reflexivity|].
+  intros C T. rewrite gip_unfold, gipP_unfold. destruct (vis_same_direction _ _); [reflexivity|].
   replace (vis_zero _) with false by (symmetry; apply vis_zero_false, T).
   unfold coplanar in C. replace (Rltb _ _) with false; [reflexivity|].
   symmetry. apply Rltb_false. rewrite C, Rabs_R0. apply Rmult_le_pos; [left; apply e5_pos | apply vlen_nonneg].
 Qed.
-Lemma seg_touches_fixed_spec (s r : S) (p : V) :
-  seg_touches_fixed s r = Some p <->
-  exists ta tb, seg_get_intersection_pt_fixed s r = Some (ta, tb) /\ touching_window ta tb /\ p = seg_at s ta.
+Lemma seg_touches_spec (s r : S) (p : V) :
+  seg_touches s r = Some p <->
+  exists ta tb, seg_get_intersection_pt s r = Some (ta, tb) /\ touching_window ta tb /\ p = seg_at s ta.
 Proof.
-  unfold seg_touches_fixed. destruct (seg_get_intersection_pt_fixed s r) as [[ta tb]|].
+  unfold seg_touches. destruct (seg_get_intersection_pt s r) as [[ta tb]|].
   - destruct (in01 ta && in01 tb) eqn:E.
     + apply touching_window_b in E. split.
       * intros H. inversion H. exists ta, tb. auto.
@@ -546,11 +548,11 @@ Proof.
     + split; [discriminate|]. intros (ta' & tb' & H & W & _). inversion H; subst. apply touching_window_b in W. congruence.
   - split; [discriminate | intros (? & ? & ? & _); discriminate].
 Qed.
-Lemma seg_intersect_fixed_spec (s r : S) (p : V) :
-  seg_intersect_fixed s r = Some p <->
-  exists ta tb, seg_get_intersection_pt_fixed s r = Some (ta, tb) /\ crossing_window ta tb /\ p = seg_at s ta.
+Lemma seg_intersect_spec (s r : S) (p : V) :
+  seg_intersect s r = Some p <->
+  exists ta tb, seg_get_intersection_pt s r = Some (ta, tb) /\ crossing_window ta tb /\ p = seg_at s ta.
 Proof.
-  unfold seg_intersect_fixed. destruct (seg_get_intersection_pt_fixed s r) as [[ta tb]|].
+  unfold seg_intersect. destruct (seg_get_intersection_pt s r) as [[ta tb]|].
   - destruct (in01x ta && _) eqn:E.
     + apply crossing_window_b in E. split.
       * intros H. inversion H. exists ta, tb. auto.
@@ -558,15 +560,65 @@ Proof.
     + split; [discriminate|]. intros (ta' & tb' & H & W & _). inversion H; subst. apply crossing_window_b in W. congruence.
   - split; [discriminate | intros (? & ? & ? & _); discriminate].
 Qed.
-(** the F5 witness is rejected by the repaired code *)
-Lemma f5_fixed : seg_get_intersection_pt_fixed f5_s f5_r = None /\ seg_intersect_fixed f5_s f5_r = None /\ seg_touches_fixed f5_s f5_r = None.
+(** the F5 witness is rejected by the live code *)
+Lemma f5_rejected : seg_get_intersection_pt f5_s f5_r = None /\ seg_intersect f5_s f5_r = None /\ seg_touches f5_s f5_r = None.
 Proof.
-  assert (G : seg_get_intersection_pt_fixed f5_s f5_r = None).
-  { apply gipF_skew_none. unfold triple, seg_normal, seg_delta, f5_s, f5_r, seg_as_vec, seg_new. cbn [sstart send]. vunf.
+  assert (G : seg_get_intersection_pt f5_s f5_r = None).
+  { apply gip_skew_none. unfold triple, seg_normal, seg_delta, f5_s, f5_r, seg_as_vec, seg_new. cbn [sstart send]. vunf.
     unfold vlen, vlen2. cbn [vx vy vz]. rnum.
     replace (((0 - 0) * (1 - 1) - (0 - 0) * (1 - -1)) * ((0 - 0) * (1 - 1) - (0 - 0) * (1 - -1)) +
              ((0 - 0) * (1 / 2 - 1 / 2) - (1 - 0) * (1 - 1)) * ((0 - 0) * (1 / 2 - 1 / 2) - (1 - 0) * (1 - 1)) +
              ((1 - 0) * (1 - -1) - (0 - 0) * (1 / 2 - 1 / 2)) * ((1 - 0) * (1 - -1) - (0 - 0) * (1 / 2 - 1 / 2))) with (Rsqr 2) by (unfold Rsqr; ring).
     rewrite sqrt_Rsqr by lra. unfold e5, Rabs. destruct (Rcase_abs _); nra. }
-  unfold seg_intersect_fixed, seg_touches_fixed. rewrite G. auto.
+  unfold seg_intersect, seg_touches. rewrite G. auto.
+Qed.
+
+(** ** the live code: further consequences *)
+Lemma gip_some_iff (s r : S) :
+  (exists t, seg_get_intersection_pt s r = Some t) <->
+  vis_same_direction (seg_as_vec s) (seg_as_vec r) = false /\
+  Rabs (triple s r) <= e5 * vlen (seg_normal s r) /\
+  (e5 < Rabs (vz (seg_normal s r)) \/ e5 < Rabs (vx (seg_normal s r)) \/ e5 < Rabs (vy (seg_normal s r))).
+Proof.
+  rewrite gip_unfold. destruct (vis_same_direction _ _).
+  - split; [intros (t & E); discriminate | intros (E & _); discriminate].
+  - rcase (e5 * vlen (seg_normal s r)) (Rabs (triple s r)) H.
+    + split; [intros (t & E); discriminate | intros (_ & H' & _); lra].
+    + rewrite seg_solve_some_iff. tauto.
+Qed.
+Lemma gip_complete (s r : S) (ta tb : R) (t : R * R) :
+  seg_at s ta = seg_at r tb -> seg_get_intersection_pt s r = Some t -> t = (ta, tb).
+Proof.
+  intros E. rewrite gip_unfold. destruct (vis_same_direction _ _); [discriminate|]. destruct (Rltb _ _); [discriminate|].
+  apply seg_solve_complete, E.
+Qed.
+Lemma seg_intersect_touches (s r : S) (p : V) : seg_intersect s r = Some p -> seg_touches s r = Some p.
+Proof.
+  rewrite seg_intersect_spec, seg_touches_spec. intros (ta & tb & H & W & E). exists ta, tb. auto using crossing_in_touching.
+Qed.
+(** contact at an end point of the second segment (tb = 0 or 1) is never a crossing and always a touch *)
+Lemma seg_endpoint_contact (s r : S) (ta tb : R) :
+  seg_get_intersection_pt s r = Some (ta, tb) -> tb = 0 \/ tb = 1 ->
+  seg_intersect s r = None /\ (0 <= ta <= 1 -> seg_touches s r = Some (seg_at s ta)).
+Proof.
+  intros H Hb. split.
+  - destruct (seg_intersect s r) as [p|] eqn:E; [|reflexivity]. apply seg_intersect_spec in E.
+    destruct E as (ta' & tb' & H' & W & _). rewrite H in H'. inversion H'; subst. unfold crossing_window, e8 in W. lra.
+  - intros Ha. apply seg_touches_spec. exists ta, tb. unfold touching_window. repeat split; try tauto; destruct Hb; lra.
+Qed.
+(** a touch (hence a crossing) reported for coplanar segments is a common point of the two segments; in general the two
+    supporting lines are at most 1e-5 apart and the two located points differ along one axis by |delta . n| / |n_k| *)
+Lemma seg_touch_coplanar_sound (s r : S) (p : V) :
+  coplanar s r -> seg_touches s r = Some p ->
+  exists ta tb, 0 <= ta <= 1 /\ 0 <= tb <= 1 /\ p = seg_at s ta /\ p = seg_at r tb.
+Proof.
+  intros C H. apply seg_touches_spec in H. destruct H as (ta & tb & H & (Wa & Wb) & ->).
+  exists ta, tb. repeat split; try tauto. apply gip_coplanar_3d; assumption.
+Qed.
+Lemma seg_touch_lines_close (s r : S) (p : V) : seg_touches s r = Some p ->
+  Rabs (triple s r) <= e5 * vlen (seg_normal s r) /\
+  exists ta tb, 0 <= ta <= 1 /\ 0 <= tb <= 1 /\ p = seg_at s ta /\ solved s r ta tb.
+Proof.
+  intros H. apply seg_touches_spec in H. destruct H as (ta & tb & H & (Wa & Wb) & ->).
+  destruct (gip_solved s r ta tb H) as (So & B). split; [exact B|]. exists ta, tb. auto.
 Qed.
